@@ -353,3 +353,106 @@ Theorem sigma_examples :
   Some [Some (qz 5); Some (qz 7); Some (qz 9); Some (qz 3); Some (qz 11); Some (qz 6)].
 Proof. exact ex_sigma_two_points. Qed.
 Print Assumptions sigma_examples.
+
+(* 9. the frequency side of vnacal_apply (Interp/ApplyFreqModel.v: one _vnacal_rfi call per error term
+      per request frequency, order MIN(cal_frequencies, VNACAL_MAX_M), ONE segment variable threaded
+      through all calls of the request; Interp/ApplyFreqRange.v: the tests on the request vector) *)
+Require Import LV.Interp.ApplyFreqModel LV.Interp.ApplyFreqProofs LV.Interp.ApplyFreqExamples
+               LV.Interp.ApplyFreqRange LV.Interp.ApplyFreqRangeProofs.
+
+(*    every calibration grid length n >= 1, every number of terms, every request (any order,
+      repetitions, any initial segment): the loop never faults and the term vector at each request
+      frequency is that of one fresh call per term *)
+Theorem apply_loop_is_pointwise : forall eps cut xp n max_m, zlen xp = n -> 1 <= n -> 1 <= max_m ->
+  knots_ok eps xp n -> forall ts, terms_wf n ts -> forall req seg,
+  exists seg', apply_loop eps cut xp n max_m ts req seg =
+               Some (map (fresh_terms eps cut xp n max_m ts) req, seg').
+Proof. exact apply_loop_spec. Qed.
+Print Assumptions apply_loop_is_pointwise.
+
+(*    hence: the terms used at a frequency do not depend on the other frequencies of the request,
+      their order, or the initial segment *)
+Theorem apply_request_pointwise : forall eps cut xp n max_m, zlen xp = n -> 1 <= n -> 1 <= max_m ->
+  knots_ok eps xp n -> forall ts, terms_wf n ts ->
+  forall req1 req2 seg1 seg2 out1 out2 s1 s2 i j f,
+  apply_loop eps cut xp n max_m ts req1 seg1 = Some (out1, s1) ->
+  apply_loop eps cut xp n max_m ts req2 seg2 = Some (out2, s2) ->
+  nth_error req1 i = Some f -> nth_error req2 j = Some f ->
+  nth_error out1 i = Some (fresh_terms eps cut xp n max_m ts f) /\
+  nth_error out2 j = Some (fresh_terms eps cut xp n max_m ts f).
+Proof. exact apply_request_pointwise_l. Qed.
+Print Assumptions apply_request_pointwise.
+
+(*    at a request frequency equal to a calibration frequency every term is the stored term *)
+Theorem apply_terms_at_knot : forall eps cut xp n max_m, zlen xp = n -> 1 <= n -> 1 <= max_m ->
+  knots_ok eps xp n -> forall ts, terms_wf n ts -> forall req seg k i,
+  0 <= k < n -> nth_error req i = Some (xat xp k) ->
+  exists out seg', apply_loop eps cut xp n max_m ts req seg = Some (out, seg') /\
+                   nth_error out i = Some (map (fun yp => yat yp k) ts).
+Proof. exact apply_terms_at_knot_l. Qed.
+Print Assumptions apply_terms_at_knot.
+
+(*    terms that are rational functions of frequency of the proved orders are reproduced at every
+      request frequency where the recurrence of each term completes (decidable side conditions) *)
+Theorem apply_low_order_exact2 : forall eps cut xp n max_m, zlen xp = n -> 1 <= n -> 1 <= max_m ->
+  knots_ok eps xp n -> forall cs req seg, apply_order n max_m = 2 ->
+  (forall x, In x req -> forallb (term2_ok eps cut xp n max_m x) cs = true) ->
+  exists seg', apply_loop eps cut xp n max_m (map (term2 xp) cs) req seg =
+               Some (map (fun x => map (fun kp => rat2 (fst kp) (snd kp) x) cs) req, seg').
+Proof. exact apply_low_order_exact2_l. Qed.
+Print Assumptions apply_low_order_exact2.
+
+Theorem apply_low_order_exact3 : forall eps cut xp n max_m, zlen xp = n -> 1 <= n -> 1 <= max_m ->
+  knots_ok eps xp n -> forall cs req seg, apply_order n max_m = 3 ->
+  (forall x, In x req -> forallb (term3_ok eps cut xp n max_m x) cs = true) ->
+  exists seg', apply_loop eps cut xp n max_m (map (term3 xp) cs) req seg =
+               Some (map (fun x => map (fun abc => rat3 (fst (fst abc)) (snd (fst abc)) (snd abc) x) cs) req, seg').
+Proof. exact apply_low_order_exact3_l. Qed.
+Print Assumptions apply_low_order_exact3.
+
+(*    as coded at the edges: a zero-length request makes no call; a one-point calibration returns its
+      stored terms at every frequency and never moves the segment *)
+Theorem apply_zero_length : forall eps cut xp n max_m ts, apply_terms eps cut xp n max_m ts [] = Some ([], 0).
+Proof. exact apply_zero_length_l. Qed.
+Print Assumptions apply_zero_length.
+
+Theorem apply_one_point_cal : forall eps cut xp max_m ts, zlen xp = 1 -> Forall (fun yp => zlen yp = 1) ts -> 1 <= max_m ->
+  forall req seg, apply_loop eps cut xp 1 max_m ts req seg =
+                  Some (map (fun _ => map (fun yp => yat yp 0) ts) req, seg).
+Proof. exact apply_one_point_cal_l. Qed.
+Print Assumptions apply_one_point_cal.
+
+(*    non-vacuity: three-point calibration, two terms (a + b f)/(c + f), request 3, 3/2, 3, 1/2, 2, 4 *)
+Theorem apply_examples :
+  apply_order 3 5 = 3 /\
+  forallb (fun x => forallb (term3_ok eps25 cut25 ax3 3 5 x) ac3) [QcI.qz 3; qq 3 2; qq 1 2; QcI.qz 4] = true /\
+  same (apply_terms eps25 cut25 ax3 3 5 (map (term3 ax3) ac3) areq)
+       (map (fun x => map (fun abc => rat3 (fst (fst abc)) (snd (fst abc)) (snd abc) x) ac3) areq) = true.
+Proof. exact ex_apply_order3. Qed.
+Print Assumptions apply_examples.
+
+(* 10. the tests of vnacal_apply on the request frequency vector *)
+Theorem apply_refuses_5pct : forall cal req, ascending req = true -> req <> [] -> cal <> [] ->
+  miss_low (firstq req) (firstq cal) \/ miss_high (lastq req) (lastq cal) ->
+  apply_check cal req = VOutOfRange.
+Proof. exact apply_refuses_5pct_l. Qed.
+Print Assumptions apply_refuses_5pct.
+
+Theorem apply_accepts_cover : forall cal req, ascending req = true -> cal <> [] ->
+  (req <> [] -> covers (firstq req) (lastq req) (firstq cal) (lastq cal)) ->
+  apply_check cal req = VOk.
+Proof. exact apply_accepts_cover_l. Qed.
+Print Assumptions apply_accepts_cover.
+
+Theorem apply_one_point_cal_range : forall c req, ascending req = true -> req <> [] ->
+  (apply_check [c] req = VOk <-> ((99 # 100) * c <= firstq req /\ lastq req <= (101 # 100) * c)%Q).
+Proof. exact apply_one_point_cal_range_l. Qed.
+Print Assumptions apply_one_point_cal_range.
+
+Theorem apply_not_increasing : forall cal req, ascending req = false -> apply_check cal req = VNotIncreasing.
+Proof. exact apply_not_increasing_l. Qed.
+Print Assumptions apply_not_increasing.
+
+Theorem apply_zero_length_check : forall cal, apply_check cal [] = VOk.
+Proof. exact apply_zero_length_check_l. Qed.
+Print Assumptions apply_zero_length_check.
